@@ -416,6 +416,11 @@ def main(argv):
     jobs = int(argv[argv.index("--jobs") + 1]) if "--jobs" in argv else int(os.environ.get("KV_JOBS", "12"))
     seed = int(os.environ.get("VERIF_SEED", "0"))
     t_start = time.time()
+    if (only or "--scratch" in argv) and not os.environ.get("KV_EVIDENCE_DIR"):
+        # partial / development runs never overwrite the registered evidence file
+        global EVIDENCE_DIR, REPLAY_DIR
+        EVIDENCE_DIR = "/tmp/kw/evidence_partial"
+        REPLAY_DIR = "/tmp/kw/evidence_partial/replays"
 
     reg = load_registry()
     sel, files = [], []
